@@ -702,7 +702,76 @@ def case_cum_fn(ctx, inp):
         ctx.branch("cum-fn-carried-value-is-NA")
 
 
-CASES = {"tree_shape": case_tree_shape, "cum_fn": case_cum_fn, "agg_model": case_agg_model, "agg_keys": case_agg_keys, "agg_spec": case_agg_spec, "misc": case_misc}
+JOINT_AGGS = ["sum", "count", "mean", "var", "std", "min", "max"]
+
+
+def case_joint(ctx, inp):
+    """JOINT / HISTORY: several groupby results of the SAME frame in one graph (dask.compute(g.sum(), g.var(), …)), one
+    expression combining two reductions (g.a.std() / g.a.mean()), and sequences of computes on a PERSISTED frame. Every
+    result must equal pandas whatever else reads the same partitions, and the sources must stay untouched (the pandas
+    frame, the persisted partitions)."""
+    import dask
+    import pandas as pd
+    dd = U.dd()
+    df = _mkdf(inp)
+    before = df.copy(deep=True)
+    cuts = inp["cuts"]
+    src = inp.get("source", "from_map")
+    d = (dd.from_pandas(df, npartitions=max(1, len(cuts) - 1), sort=False) if src == "from_pandas"
+         else U.frame_from_cuts(df, cuts))
+    mode = inp["mode"]
+    frame_level = inp.get("frame_level", False)
+
+    def dgb(x):
+        g = x.groupby("c")
+        return g[["a", "b"]] if frame_level else g.a
+
+    def pgb():
+        g = df.groupby("c")
+        return g[["a", "b"]] if frame_level else g.a
+
+    def check(what, got, exp):
+        why = U.same_pandas(got, exp, names=False)
+        if why:
+            ctx.fail(f"{what} differs from pandas: {why}", observed=str(got)[:300], expected=str(exp)[:300])
+    try:
+        with dask.config.set(scheduler="sync"):
+            if mode == "compute":
+                aggs = inp["aggs"]
+                outs = dask.compute(*[getattr(dgb(d), a)() for a in aggs])
+                for a, o in zip(aggs, outs):
+                    check(f"groupby.{a}() computed together with {[x for x in aggs if x != a]}", o, getattr(pgb(), a)())
+                # and in the opposite task order
+                outs = dask.compute(*[getattr(dgb(d), a)() for a in aggs[::-1]])
+                for a, o in zip(aggs[::-1], outs):
+                    check(f"groupby.{a}() computed together (reversed) with {[x for x in aggs if x != a]}", o, getattr(pgb(), a)())
+            elif mode == "arith":
+                a1, a2, sym = inp["aggs"][0], inp["aggs"][1], inp["arith"]
+                f = {"div": lambda x, y: x / y, "add": lambda x, y: x + y, "sub": lambda x, y: x - y}[sym]
+                got = f(getattr(dgb(d), a1)(), getattr(dgb(d), a2)()).compute()
+                exp = f(getattr(pgb(), a1)(), getattr(pgb(), a2)())
+                check(f"groupby.{a1}() {sym} groupby.{a2}()", got, exp)
+            else:
+                p = d.persist()
+                held = [x.copy(deep=True) for x in U.partitions(p)]
+                for a in inp["aggs"]:
+                    check(f"groupby.{a}() on a persisted frame after {inp['aggs']}", getattr(dgb(p), a)().compute(), getattr(pgb(), a)())
+                    now = U.partitions(p)
+                    if len(now) != len(held) or any(not x.equals(y) for x, y in zip(now, held)):
+                        ctx.fail(f"the partitions of the persisted frame were modified by groupby.{a}()",
+                                 observed=str(pd.concat(now))[:300], expected=str(pd.concat(held))[:300])
+                        break
+    except Exception as e:  # noqa: BLE001
+        ctx.fail("joint groupby evaluation raised: " + U.exc_name(e), observed=[inp["aggs"], mode, U.exc_name(e)])
+        return
+    if not df.equals(before):
+        ctx.fail("the pandas source frame was modified by a groupby computation", observed=str(df)[:300], expected=str(before)[:300])
+    ctx.branch(f"joint-{mode}-{src}" + ("-frame" if frame_level else ""))
+    if {"var", "std"} & set(inp["aggs"]):
+        ctx.branch("joint-with-var|std")
+
+
+CASES = {"joint": case_joint, "tree_shape": case_tree_shape, "cum_fn": case_cum_fn, "agg_model": case_agg_model, "agg_keys": case_agg_keys, "agg_spec": case_agg_spec, "misc": case_misc}
 
 
 def _rand_frame(rng, keykind="int"):
@@ -868,6 +937,21 @@ def _interleave(gens):
                     break
 
 
+def _gen_joint(ctx):
+    rng = ctx.rng
+    for _ in range(ctx.n(45, 700)):
+        inp = _rand_frame(rng, "int")
+        inp["mode"] = rng.choice(["compute", "compute", "arith", "persist"])
+        inp["source"] = rng.choice(["from_map", "from_pandas"])
+        inp["frame_level"] = rng.random() < 0.4
+        k = 2 if inp["mode"] == "arith" else rng.randint(2, 4)
+        inp["aggs"] = rng.sample(JOINT_AGGS, k)
+        if rng.random() < 0.7 and not ({"var", "std"} & set(inp["aggs"])):
+            inp["aggs"][rng.randrange(k)] = rng.choice(["var", "std"])     # the reductions with a multi-step chunk
+        inp["arith"] = rng.choice(["div", "add", "sub"])
+        yield "joint", inp
+
+
 def generate(ctx):
-    yield from _interleave([(_gen_function_level(ctx), 2), (_gen_exhaustive(ctx), 2), (_gen_modelled_ops(ctx), 1), (_gen_agg_model(ctx), 3), (_gen_agg_keys(ctx), 1), (_gen_agg_spec(ctx), 1),
+    yield from _interleave([(_gen_joint(ctx), 1), (_gen_function_level(ctx), 2), (_gen_exhaustive(ctx), 2), (_gen_modelled_ops(ctx), 1), (_gen_agg_model(ctx), 3), (_gen_agg_keys(ctx), 1), (_gen_agg_spec(ctx), 1),
                             (_gen_cumulative(ctx), 1), (_gen_misc(ctx), 2)])
